@@ -22,3 +22,45 @@ Theorem C10_span_table_well_typed :
     end) (span_parts k)) all_nkinds = true.
 Proof. exact span_table_well_typed. Qed.
 Print Assumptions C10_span_table_well_typed.
+
+(** ** positions of a successfully parsed program *)
+From PQL Require Import Spec.FlattenStmt Proofs.LexerFacts Proofs.SpanFacts.
+
+(** If [Parse] succeeds: (1) the tree represents the source's token sequence, and in that
+    representation ([toks_prog]) every recorded position -- a name's, a literal's, an operator's,
+    keyword's or bracket's -- is by definition the span of the corresponding token, with that
+    token's kind and text; (2) the tokens lie in order, non-empty, inside the source; (3) the
+    statements' overall spans (computed by the Span() unions of the generated [span_parts]
+    table) are the extents of their tokens, in order, inside the source.  For every source. *)
+Theorem C10_parse_spans : forall s ss, parse s = ParseOk ss ->
+  toks_prog ss (scan s) /\ toks_within 0 (length s) (scan s) /\ spans_within 0 (length s) (map gspan (map g_stmt ss)).
+Proof. exact parse_spans. Qed.
+Print Assumptions C10_parse_spans.
+
+(** A node's overall span is the extent from its first to its last token -- for every
+    expression, list element, sort term, column, operator and statement, in any layout
+    (the tokens only have to be in order, which [scan] guarantees). *)
+Theorem C10_expr_extent : forall e ts, toks_expr e ts -> forall lo hi, toks_within lo hi ts -> gspan (g_expr e) = ext ts.
+Proof. exact (proj1 expr_span). Qed.
+Print Assumptions C10_expr_extent.
+
+Theorem C10_operator_extent : forall o ts, toks_op o ts -> ts <> [] /\ forall lo hi, toks_within lo hi ts -> gspan (g_op o) = ext ts.
+Proof. exact (proj1 op_span). Qed.
+Print Assumptions C10_operator_extent.
+
+Theorem C10_statement_extent : forall s ts, toks_stmt s ts -> ts <> [] /\ forall lo hi, toks_within lo hi ts -> gspan (g_stmt s) = ext ts.
+Proof. exact stmt_span. Qed.
+Print Assumptions C10_statement_extent.
+
+(** the extent of a piece of the token sequence lies inside any bounds the sequence has: a
+    node's span contains the spans of all its parts *)
+Theorem C10_part_inside : forall a b c lo hi, toks_within lo hi (a ++ b ++ c) ->
+  inside lo hi (ext b) /\ (b <> [] -> inside (lo_of (a ++ b ++ c)) (hi_of (a ++ b ++ c)) (ext b)).
+Proof.
+  intros a b c lo hi W. split.
+  - destruct (within_app _ _ _ _ W) as [_ W2]. destruct (within_app _ _ _ _ W2) as [W3 _]. apply ext_inside. exact W3.
+  - intros Hb. assert (Hne : a ++ b ++ c <> []) by (destruct a; [destruct b; [congruence|discriminate]|discriminate]).
+    pose proof (within_tight _ _ _ W Hne) as Wt.
+    destruct (within_app _ _ _ _ Wt) as [_ W2]. destruct (within_app _ _ _ _ W2) as [W3 _]. apply ext_inside. exact W3.
+Qed.
+Print Assumptions C10_part_inside.
